@@ -30,7 +30,11 @@ type row struct {
 // Stage names: the first four contain ':' in a way that makes concatenations of two names
 // ambiguous ("x" + ":" + "y:z" = "x:y" + ":" + "z"), as names in real configurations do
 // ("lint:go", "graph:task1"); the others are plain.
-var nameTable = []string{"", "x", "x:y", "y:z", "z"}
+var nameTableColon = []string{"", "x", "x:y", "y:z", "z"}
+
+// a second table without separators: "a" + "bb" = "ab" + "b"
+var nameTablePrefix = []string{"", "a", "ab", "b", "bb"}
+var nameTable = nameTableColon
 
 func name(i int) string {
 	if i > 0 && i < len(nameTable) {
@@ -246,17 +250,28 @@ func Check(env *core.Env, rep *core.Report) *core.Result {
 	var calls, cyc int64
 	all := append(append([]row{}, rows3...), rows4...)
 	p3, p4 := perms(3), perms(4)
+	// (twice: with stage names that are ambiguous when joined with ':' and when simply concatenated)
+	for _, tbl := range [][]string{nameTablePrefix, nameTableColon} {
+		nameTable = tbl
+		core.Parallel(len(all), 16, func(i int) {
+			r := all[i]
+			ps := p4
+			if r.N == 3 {
+				ps = p3
+			}
+			for _, o := range ps {
+				atomic.AddInt64(&calls, 1)
+				if k, w := compare(r, o); k != "" {
+					add("api:"+k, w, map[string]interface{}{"n": r.N, "deps": r.Deps, "order": o, "model_cyclic": r.Cyclic, "stage_names": tbl[1:]})
+				}
+			}
+		})
+	}
 	core.Parallel(len(all), 16, func(i int) {
 		r := all[i]
 		ps := p4
 		if r.N == 3 {
 			ps = p3
-		}
-		for _, o := range ps {
-			atomic.AddInt64(&calls, 1)
-			if k, w := compare(r, o); k != "" {
-				add("api:"+k, w, map[string]interface{}{"n": r.N, "deps": r.Deps, "order": o, "model_cyclic": r.Cyclic})
-			}
 		}
 		if r.Cyclic {
 			atomic.AddInt64(&cyc, 1)
